@@ -9,12 +9,16 @@ CHECKS["C14"] = dict(
           "completed) and short sleeps; the two programs run concurrently against the real transport (mock channel "
           "buffer 0/1/3/10, websocket with json/msgpack codec, gRPC with Internal on/off). A reference model predicts every "
           "Receive result and rejects scripts that could deadlock if a transport held at most 16 KiB / buf messages in flight. "
+          "CloseSend on an exactly full request buffer (incl. unbuffered) is generated on purpose while the handler is still going "
+          "to Receive, usually with the handler's draining Receive held back by a rendezvous on the last Send (class closesend-on-full-buffer[-held]). "
           "After its scripted ops the client always drains to the terminal result and calls Receive three more times. "
           "Non-trivial = script in which the handler returns while >= 1 response is unread by the client in script order, or "
           "CloseSend precedes >= 1 response; distinct by script hash."),
     assumptions=[
         "timing between the two sides is sampled (rendezvous edges, sleeps of at most 1.5 ms, scheduler noise); not every interleaving is reached",
-        "a blocking call that makes no progress for 30 s is counted as inconclusive (discard 'timeout'), never as a violation",
+        "a blocking call that makes no progress for 30 s is counted as inconclusive (discard 'timeout'), never as a violation, with two exceptions "
+        "where the statement demands a definite end and nothing remains to be awaited (10 s of observed scheduler ticks): a client Receive after the "
+        "terminal result was already returned, and a handler Receive that must yield end-of-stream after the client's CloseSend has returned and all earlier requests were received",
         "websocket: a client that reaches the terminal result more than 300 ms after the handler returned is discarded, because the server "
         "deliberately tears the connection down 500 ms after the handler returns (closeReadWriteDeadline)",
         "results of Send/CloseSend are recorded as classes only; the property statement constrains Receive results",
